@@ -177,3 +177,35 @@ Example checkpoint_example :
              (resume (new_reader 32768 (stream (fun x => x) msgs)) (Some (mk_mc 3 (Some (mk_sc 0 0)))))
     = Some ([[]; [3]], EEOF).
 Proof. vm_compute. split; reflexivity. Qed.
+
+(** ** Added (Compose/ModelsAgree.v): the two models of encoding/binary's uvarint agree
+
+    PutUvarint / ReadUvarint are modelled here ([uvarint_enc], [uvarint_read], Wire/Uvarint.v)
+    and a second time by Overlay/Codec.v [uvarint] / [get_uvarint] (C14's executable overlay
+    codec: length prefix and proto3 varint fields).  Stated in C13's file for the pair C13/C14.
+    Hypotheses: the encoded value is a uint64; the decoded string consists of bytes.  The
+    decoders agree on value and unread rest whenever Go's reader succeeds and on "no value" at
+    the end of input; on errOverflow (more than ten bytes, or a tenth byte above 1) the C14
+    decoder - which has no overflow check and only ever reads what its own writer produced -
+    returns a number where Go and the C13 model return an error: the C13 model is the
+    faithful one ([uvarint_decoders_differ_on_overflow]). *)
+From Wharf Require Overlay.Codec Compose.ModelsAgreeVarintProofs.
+
+Theorem uvarint_models_agree :
+  (forall x : N, (x < 2 ^ 64)%N -> uvarint_enc x = Codec.uvarint x) /\
+  (forall l : list byte, Forall (fun b => (b < 256)%N) l ->
+     match uvarint_read l with
+     | UvOk v _ r => Codec.get_uvarint l 0 0 = Some (v, r)
+     | UvErr UvOverflow _ => True
+     | UvErr _ _ => Codec.get_uvarint l 0 0 = None
+     end).
+Proof. exact ModelsAgreeVarintProofs.uvarint_models_agree_lemma. Qed.
+Print Assumptions uvarint_models_agree.
+
+Theorem uvarint_decoders_differ_on_overflow :
+  (uvarint_read (repeat 128%N 10 ++ [0%N]) = UvErr UvOverflow 10 /\
+   Codec.get_uvarint (repeat 128%N 10 ++ [0%N]) 0 0 = Some (0%N, [])) /\
+  (uvarint_read (repeat 128%N 9 ++ [2%N]) = UvErr UvOverflow 10 /\
+   Codec.get_uvarint (repeat 128%N 9 ++ [2%N]) 0 0 = Some ((2 ^ 64)%N, [])).
+Proof. exact ModelsAgreeVarintProofs.uvarint_decoders_differ_on_overflow_lemma. Qed.
+Print Assumptions uvarint_decoders_differ_on_overflow.
